@@ -141,6 +141,12 @@ def arrival_timing_case(ctx, case):
                 look()
             tk.now = max(tk.now, t_end)
 
+        if case.get("bulk"):
+            # the endpoint has a congestion window's worth of data in flight that nobody acknowledges: acknowledgements are not congestion
+            # controlled and remain due
+            sid = sut.get_next_available_stream_id()
+            sut.send_stream_data(sid, bytes(case["bulk"]))
+            look()
         pn = tk.pn + 1
         for ri, (gap, count, kind) in enumerate(case["runs"]):
             if move and ri == move["at"]:
@@ -149,7 +155,7 @@ def arrival_timing_case(ctx, case):
                 run_until(tk.now + gap)
                 if sut._close_event is not None:
                     break
-                frames = [{"name": "ping"}] if kind == "ping" else [{"name": "stream", "stream_id": 0 if case["role"] == "server" else 1, "offset": 0, "data": b"", "fin": False}] if kind == "stream" else [{"name": "padding"}]
+                frames = [{"name": "ping"}] if kind == "ping" else [{"name": "stream", "stream_id": 0 if case["role"] == "server" else 1, "offset": 0, "data": b"", "fin": False}] if kind == "stream" else [{"name": "path_challenge", "data": pn.to_bytes(8, "big")}] if kind == "challenge" else [{"name": "padding"}]
                 if move and src[0] == new_addr:
                     if move["pad"]:
                         frames = frames + [{"name": "padding"}] * move["pad"]
@@ -196,9 +202,9 @@ def arrival_timing_task(ctx, examples, shard):
     from hypothesis import strategies as st
     from vlib.harness import run_hypothesis
 
-    run = st.tuples(st.sampled_from([0.0001, 0.0004, 0.0009, 0.00099, 0.001, 0.0011, 0.003, 0.012, 0.04]), st.sampled_from([1, 3, 10, 40, 120]), st.sampled_from(["ping", "ping", "stream", "padding"]))
+    run = st.tuples(st.sampled_from([0.0001, 0.0004, 0.0009, 0.00099, 0.001, 0.0011, 0.003, 0.012, 0.04]), st.sampled_from([1, 3, 10, 40, 120]), st.sampled_from(["ping", "ping", "stream", "padding", "challenge"]))
     move = st.one_of(st.none(), st.fixed_dictionaries({"at": st.integers(0, 3), "respond": st.booleans(), "pad": st.sampled_from([0, 0, 10, 40, 150])}))
-    strat = st.fixed_dictionaries({"kind": st.just("arrivals"), "role": st.sampled_from(["server", "client"]), "runs": st.lists(run, min_size=1, max_size=6), "move": move})
+    strat = st.fixed_dictionaries({"kind": st.just("arrivals"), "role": st.sampled_from(["server", "client"]), "runs": st.lists(run, min_size=1, max_size=6), "move": move, "bulk": st.sampled_from([0, 0, 3000, 40000, 200000])})
     # a peer that moves and then sends little: one or two small ack-eliciting packets, then packets that elicit nothing (the budget for the new address
     # grows while an acknowledgement is owed)
     gap = st.sampled_from([0.0001, 0.0009, 0.003, 0.012, 0.04])
